@@ -1,4 +1,5 @@
 PROP = dict(
+    ready=True,
     coq=["theories/Properties/C19.v"],
     suites=[dict(bin="obs-router")],
     translators=[
